@@ -319,8 +319,9 @@ Definition cmd_incrby (sign : Z) (now : Z) (d : db) (args : list bytes) : res :=
   match args with
   | [k; n] => match parse_i64 n with
               | Some n =>
-                (* DECRBY negates in int64: -min_i64 wraps to min_i64 *)
-                incr_core now d k (if sign =? 1 then n else wrap64 (- n))
+                (* DECRBY of the most negative number cannot be negated *)
+                if (sign =? -1) && (n =? min_i64) then (d, err "ERR decrement would overflow")
+                else incr_core now d k (if sign =? 1 then n else - n)
               | None => (d, argerr)
               end
   | _ => (d, argerr)
